@@ -150,7 +150,9 @@ def r07a(ck, prog):
     def signature(rows):
         # (code, state pair) multiset; the penalty terms are spelled differently per kernel (scalars vs profile
         # columns) and are part of the undecided numerics
-        return sorted((code, pair) for code, pair, pens, lhs, stored, a in rows)
+        # a set, not a multiset: how often a candidate is written out depends on how the border cases are spelled
+        # (two branches differing in the penalty vs one statement with a pre-selected penalty); R07f compares per situation
+        return sorted({(code, pair) for code, pair, pens, lhs, stored, a in rows})
     sigs = {n: signature(r) for n, r in tables.items()}
     ref = sigs[MEETUPS[0]]
     for n in MEETUPS[1:]:
@@ -401,40 +403,37 @@ def _penalty_family(stmt):
 
 
 def r07d(ck, prog):
-    """the three kernels handle the borders of a sub-rectangle alike: the ordered list of tests on the rectangle
-    coordinates (startb != 0, endb != len_b) that select the terminal-gap variant of an update is the same in the
-    three forward passes and the same in the three backward passes; and in each, the branch taken when the border is
-    interior uses the interior penalties, the other the terminal ones"""
+    """border tests have the right polarity: in every kernel pass (and the private helpers it calls), an if on the
+    rectangle coordinates (startb != 0, endb != len_b, canonicalised through local flags, `!`, ==/!=) whose branches use
+    gap penalties uses the interior ones (gpo/gpe, columns 27/28) on the side where the border lies inside the sequence
+    and the terminal one (tgpe, column 29) on the other.  (Which test guards which update is compared across the three
+    kernels semantically by R07e, per border situation.)"""
+    n = 0
     for suf in ("foward", "backward"):
-        lists = {}
         for kk in KINDS_:
             F = prog.fn(kk + suf)
-            conds = []
-            for i in F.body.find("IfStmt"):
-                r = _border_pred(F, i.child("cond"))
-                if r is None:
-                    continue
-                pred, pol = r
-                conds.append(pred)
-                th, el = i.child("then"), i.child("else")
-                inner, outer = (th, el) if pol else (el, th)
-                fi = _penalty_family(inner) if inner is not None else set()
-                fo = _penalty_family(outer) if outer is not None else set()
-                ck.inst("R07d", site(prog, i, pred), "%s: when %s uses %s penalties, otherwise %s" % (kk + suf, pred, sorted(fi), sorted(fo)), prog.config)
-                if "terminal" in fi or "interior" in fo:
-                    ck.violation("R07d", "R07d/%s/polarity/%d" % (kk + suf, len(conds)), site(prog, i, pred),
-                                 "%s: the branch taken when %s (the border lies inside the sequence) uses %s penalties and the other "
-                                 "branch %s: terminal and interior gap prices are swapped at this border" % (kk + suf, pred, sorted(fi), sorted(fo)), prog.config)
-            lists[kk + suf] = conds
-        if not any(lists.values()):
-            raise AnalysisBroken("R07d: no border test found in the %s passes" % suf)
-        vals = list(lists.values())
-        ref = max(vals, key=lambda l: vals.count(l))
-        for name, l in lists.items():
-            if l != ref:
-                ck.violation("R07d", "R07d/%s/border-tests" % name, site(prog, prog.fn(name)),
-                             "%s selects the terminal-gap variants by %s, its siblings by %s: one kernel prices a gap at the border of a "
-                             "sub-rectangle differently from the others" % (name, l, ref), prog.config)
+            fns = [F]
+            for c in F.body.calls():
+                H = prog.functions.get(c.callee) if c.callee else None
+                if H is not None and H.body is not None and H.static and H.file == F.file and H not in fns:
+                    fns.append(H)
+            for G in fns:
+                for i in G.body.find("IfStmt"):
+                    r = _border_pred(G, i.child("cond"))
+                    if r is None:
+                        continue
+                    pred, pol = r
+                    th, el = i.child("then"), i.child("else")
+                    inner, outer = (th, el) if pol else (el, th)
+                    fi = _penalty_family(inner) if inner is not None else set()
+                    fo = _penalty_family(outer) if outer is not None else set()
+                    n += 1
+                    ck.inst("R07d", site(prog, i, pred), "%s: when %s uses %s penalties, otherwise %s" % (G.name, pred, sorted(fi), sorted(fo)), prog.config)
+                    if ("terminal" in fi and "interior" not in fi) or ("interior" in fo and "terminal" not in fo):
+                        ck.violation("R07d", "R07d/%s/polarity/%d" % (G.name, i.line), site(prog, i, pred),
+                                     "%s: the branch taken when %s (the border lies inside the sequence) uses %s penalties and the other "
+                                     "branch %s: terminal and interior gap prices are swapped at this border" % (G.name, pred, sorted(fi), sorted(fo)), prog.config)
+    return n
 
 
 # --------------------------------------------------------------------------- R07e: recurrences agree
@@ -473,107 +472,317 @@ def _idx_canon(F):
     return canon
 
 
-def kernel_summary(F, sigma):
-    """[(segment path, {output name: max-plus value})] for one kernel pass under the border assignment sigma
-    ({'startb!=0': bool, 'endb!=len_b': bool}); segments are the straight-line pieces between/inside the loops"""
-    canon = _idx_canon(F)
-    segs = []
-    where = {}
+FLOATS = ("float", "double", "const float", "const double")
+PURE = {"O", "E", "T"}
 
-    def new_eval():
-        return Eval(F, lambda b: "struct states" in b.strip(casts=True).ty, canon)
 
-    def run(stmts, ev, path):
-        nloop = 0
-        for st in stmts:
-            k = st.k
-            if k in ("NullStmt", "ReturnStmt"):
-                continue
-            if k == "CompoundStmt":
-                nloop = run_block(st.kids, ev, path, nloop)
-                continue
-            nloop = run_block([st], ev, path, nloop)
+def _atoms(v):
+    return {a for alt in v for a, _ in alt}
+
+
+class Summ:
+    """cuts one kernel pass at its loops into straight-line pieces and evaluates each piece in the max-plus domain under one
+    border situation sigma.  Private helpers are walked in place (float parameters bound to the argument values), so that
+    extracting the first-row loop or the score accumulation into a helper does not change the summary."""
+
+    def __init__(self, prog, F, sigma):
+        self.prog, self.F, self.sigma = prog, F, sigma
+        self.segs, self.where = [], {}
+        self.consts = {}            # did -> value of float locals defined once from penalties only (kept across pieces)
+        self.depth = 0
+
+    # -- evaluation context -------------------------------------------------------------
+    def new_eval(self, F):
+        ev = Eval(F, lambda b: "struct states" in b.strip(casts=True).ty, _idx_canon(F))
+        ev.consts = self.consts
+        ev.cond_resolver = lambda c: self.resolve(ev.F, c)
+        ev.call_hook = lambda n: self.call_value(ev, n)
         return ev
 
-    def run_block(stmts, ev, path, nloop):
+    def resolve(self, F, cond):
+        r = _border_pred(F, cond)
+        if r is None or r[0] not in self.sigma:
+            return None
+        return self.sigma[r[0]] == r[1]
+
+    def helper(self, c):
+        H = self.prog.functions.get(c.callee) if c.callee else None
+        return H if H is not None and H.body is not None else None
+
+    def call_value(self, ev, call):
+        """value of a call to a helper that returns a float (max3f(a,b,c), add_column_score(acc, ...))"""
+        H = self.helper(call)
+        if H is None or self.depth > 2:
+            raise Unsupported("call %s" % call.text()[:40])
+        return self.inline(ev, H, call, None, 0)[1]
+
+    def inline(self, ev, H, call, path, nloop):
+        saved_F, saved_canon = ev.F, ev.idx_canon
+        mine = set()
+        for i, prm in enumerate(H.params):
+            if prm["ty"] in FLOATS and i < len(call.args):
+                ev.loc[prm["did"]] = ev.ev(call.args[i])
+                ev.names[prm["did"]] = "%s:%s" % (H.name, prm["name"])
+                mine.add(prm["did"])
+        before = set(ev.loc)
+        ev.F, ev.idx_canon = H, _idx_canon(H)
+        self.depth += 1
+        self.ret = None
+        try:
+            nloop = self.run([H.body], ev, path, nloop, H)
+        finally:
+            self.depth -= 1
+            ev.F, ev.idx_canon = saved_F, saved_canon
+        ret = self.ret
+        self.ret = None
+        for did in (set(ev.loc) - before) | mine:        # the helper's own locals are not part of the caller's state
+            ev.loc.pop(did, None)
+            nm = ev.names.pop(did, None)
+            ev.where.pop(nm, None)
+        return nloop, ret
+
+    # -- statements ---------------------------------------------------------------------------
+    def snapshot(self, key, ev):
+        self.segs.append((key, ev.outputs()))
+        self.where.update({(key, k): v for k, v in ev.where.items()})
+
+    def store(self, ev, lhs, val, F):
+        ev.assign(lhs, val)
+        l = lhs.strip(casts=True)
+        if l.k == "DeclRefExpr" and _atoms(val) <= PURE and len(local_defs(F, l.d["did"])) == 1:
+            self.consts[l.d["did"]] = val
+
+    def run(self, stmts, ev, path, nloop, F):
         for st in stmts:
             k = st.k
-            if k in ("NullStmt", "ReturnStmt"):
+            if k == "NullStmt":
+                continue
+            if k == "ReturnStmt":
+                if st.kids and st.kids[0].strip(casts=True).ty in FLOATS:
+                    self.ret = ev.ev(st.kids[0])
                 continue
             if k == "CompoundStmt":
-                nloop = run_block(st.kids, ev, path, nloop)
+                nloop = self.run(st.kids, ev, path, nloop, F)
             elif k == "DeclStmt":
                 for kid in st.kids:
-                    if kid.role == "declinit" and kid.decl.get("ty") in ("float", "double", "const float"):
-                        if any(m.d.get("field") in ("gpo", "gpe", "tgpe") for m in kid.find("MemberExpr")):
-                            continue        # a penalty scalar: resolved at its uses (Eval.penalty_class)
+                    if kid.role == "declinit" and kid.decl.get("ty") in FLOATS:
                         if kid.strip(casts=True).k in ("IntegerLiteral", "FloatingLiteral"):
                             continue        # `register float pa = 0;` - a placeholder, not part of the recurrence
-                        ev.loc[kid.decl["did"]] = ev.ev(kid)
+                        if ev.penalty_class_of_def(kid):
+                            continue        # a penalty scalar: resolved at its uses
+                        v = ev.ev(kid)
+                        ev.loc[kid.decl["did"]] = v
                         ev.names[kid.decl["did"]] = kid.decl["name"]
+                        ev.where[kid.decl["name"]] = kid
+                        if _atoms(v) <= PURE:
+                            self.consts[kid.decl["did"]] = v
+                    elif kid.role == "declinit":
+                        nloop = self.effects_of_calls(kid, ev, path, nloop)
             elif k == "BinaryOperator" and st.d["op"] == "=":
-                if st.kids[0].strip(casts=True).ty in ("float", "double"):
-                    ev.assign(st.kids[0], ev.ev(st.kids[1]))
+                if st.kids[0].strip(casts=True).ty in FLOATS:
+                    self.store(ev, st.kids[0], ev.ev(st.kids[1]), F)
+                else:
+                    nloop = self.effects_of_calls(st.kids[1], ev, path, nloop)
             elif k == "CompoundAssignOperator":
-                if st.kids[0].strip(casts=True).ty in ("float", "double"):
+                if st.kids[0].strip(casts=True).ty in FLOATS:
                     if st.d["op"] not in ("+=", "-="):
                         raise Unsupported("compound assignment %s" % st.text()[:40])
                     r = ev.ev(st.kids[1])
-                    ev.assign(st.kids[0], vadd(ev.ev(st.kids[0]), r if st.d["op"] == "+=" else vneg(r)))
+                    self.store(ev, st.kids[0], vadd(ev.ev(st.kids[0]), r if st.d["op"] == "+=" else vneg(r)), F)
             elif k == "UnaryOperator" and st.d["op"] in ("++", "--"):
-                if st.kids[0].strip(casts=True).ty in ("float", "double"):
+                if st.kids[0].strip(casts=True).ty in FLOATS:
                     raise Unsupported("float increment")
+            elif k == "CallExpr":
+                nloop = self.effects_of_calls(st, ev, path, nloop)
             elif k == "IfStmt":
-                r = _border_pred(F, st.child("cond"))
-                if r is not None:
-                    pred, pol = r
-                    if pred not in sigma:
-                        raise Unsupported("border test %s" % pred)
-                    br = st.child("then") if sigma[pred] == pol else st.child("else")
-                    if br is not None:
-                        nloop = run_block([br], ev, path, nloop)
-                elif _float_effects(st):
-                    raise Unsupported("float state changed under the test %s" % st.child("cond").text()[:40])
+                nloop = self.run_if(st, ev, path, nloop, F)
+            elif k == "DoStmt" and st.child("cond") is not None and st.child("cond").strip(casts=True).cv == 0:
+                nloop = self.run([st.child("body")], ev, path, nloop, F)      # do { ... } while(0): a macro body
             elif k in ("ForStmt", "WhileStmt", "DoStmt"):
-                body = st.child("body")
-                eff = _float_effects(body)
-                if not eff:
-                    continue
-                if all(e.k == "CompoundAssignOperator" and e.d["op"] == "+=" and e.kids[1].strip(casts=True).k == "BinaryOperator"
-                       and e.kids[1].strip(casts=True).d["op"] == "*" for e in eff):
-                    for e in eff:       # the score of the cell accumulated over the letters of a column
-                        ev.assign(e.kids[0], vadd(ev.ev(e.kids[0]), ev.ev(e.kids[1])))
-                    continue
-                nloop += 1
-                # the straight-line piece before the loop ends here; the piece after it starts from fresh entry values
-                segs.append(("%s#%d" % (path, nloop - 1), ev.outputs()))
-                where.update({("%s#%d" % (path, nloop - 1), k): v for k, v in ev.where.items()})
-                ev.loc.clear()
-                ev.cells.clear()
-                ev.where.clear()
-                sub = new_eval()
-                p2 = "%s/L%d" % (path, nloop)
-                n2 = run_block([body], sub, p2, 0)
-                segs.append(("%s#%d" % (p2, n2), sub.outputs()))
-                where.update({("%s#%d" % (p2, n2), k): v for k, v in sub.where.items()})
-            elif k in ("CallExpr",):
-                raise Unsupported("call %s" % st.text()[:40])
+                nloop = self.run_loop(st, ev, path, nloop, F)
             else:
-                if _float_effects(st):
+                if _float_effects(st) or any(self.helper(c) for c in st.find("CallExpr")):
                     raise Unsupported("%s changes float state" % k)
         return nloop
 
-    top = new_eval()
-    n = run_block([F.body], top, "", 0)
-    segs.append(("#%d" % n, top.outputs()))
-    where.update({("#%d" % n, k): v for k, v in top.where.items()})
+    def effects_of_calls(self, expr, ev, path, nloop):
+        """a call whose value is not a float (a status, a pointer): walk the helper if it touches float state"""
+        for c in expr.find("CallExpr"):
+            H = self.helper(c)
+            if H is None:
+                continue
+            if _float_effects(H.body) or any(self.helper(x) for x in H.body.find("CallExpr")):
+                if self.depth > 2 or path is None:
+                    raise Unsupported("call %s" % c.text()[:40])
+                nloop, _ = self.inline(ev, H, c, path, nloop)
+        return nloop
+
+    def run_if(self, st, ev, path, nloop, F):
+        cond = st.child("cond")
+        r = self.resolve(F, cond)
+        if r is not None:
+            br = st.child("then") if r else st.child("else")
+            if br is not None:
+                nloop = self.run([br], ev, path, nloop, F)
+            return nloop
+        th, el = st.child("then"), st.child("else")
+        touched = _float_effects(st) or any(self.helper(c) for c in st.find("CallExpr"))
+        if not touched:
+            return nloop
+        # `if (x > y) v = x; else v = y;`  /  `if (!(v > c)) v = c;`  -  a maximum spelled as a branch
+        c, neg = cond.strip(casts=True), False
+        while c.k == "UnaryOperator" and c.d["op"] == "!":
+            c, neg = c.kids[0].strip(casts=True), not neg
+        if not (c.k == "BinaryOperator" and c.d["op"] in (">", ">=", "<", "<=") and c.kids[0].strip(casts=True).ty in FLOATS):
+            raise Unsupported("float state changed under the test %s" % cond.text()[:40])
+        if any(x.k in ("ForStmt", "WhileStmt", "DoStmt") for x in st.walk()):
+            raise Unsupported("loop under the comparison %s" % cond.text()[:40])
+        P, Q = ev.ev(c.kids[0]), ev.ev(c.kids[1])
+        if c.d["op"] in ("<", "<="):
+            P, Q = Q, P
+        e1, e2 = ev.copy(), ev.copy()
+        for e in (e1, e2):
+            e.consts, e.cond_resolver, e.call_hook = ev.consts, ev.cond_resolver, ev.call_hook
+        self.run([th], e1, path, nloop, F)
+        if el is not None:
+            self.run([el], e2, path, nloop, F)
+        if neg:
+            e1, e2 = e2, e1             # e1: state when P > Q holds, e2: when it does not
+        for key in set(e1.loc) | set(e2.loc):
+            v1, v2 = e1.loc.get(key, ev.loc.get(key)), e2.loc.get(key, ev.loc.get(key))
+            if v1 == v2:
+                if v1 is not None:
+                    ev.loc[key] = v1
+                    ev.names[key] = e1.names.get(key) or e2.names.get(key)
+                continue
+            if v1 == P and v2 == Q:
+                ev.loc[key] = vmax_(P, Q)
+                ev.names[key] = e1.names.get(key) or e2.names.get(key)
+                ev.where[ev.names[key]] = e1.where.get(ev.names[key]) or e2.where.get(ev.names[key])
+            else:
+                raise Unsupported("the branches of %s do not select the larger operand" % cond.text()[:40])
+        for key in set(e1.cells) | set(e2.cells):
+            v1, v2 = e1.cells.get(key, ev.cells.get(key)), e2.cells.get(key, ev.cells.get(key))
+            if v1 == v2 and v1 is not None:
+                ev.cells[key] = v1
+            elif v1 == P and v2 == Q:
+                ev.cells[key] = vmax_(P, Q)
+            else:
+                raise Unsupported("the branches of %s do not select the larger operand" % cond.text()[:40])
+            ev.where["s[%s].%s" % key] = e1.where.get("s[%s].%s" % key) or e2.where.get("s[%s].%s" % key)
+        return nloop
+
+    def run_loop(self, st, ev, path, nloop, F):
+        body = st.child("body")
+        eff = _float_effects(body)
+        if not eff and not any(self.helper(c) and (_float_effects(self.helper(c).body)) for c in body.find("CallExpr")):
+            return nloop
+        if eff and all(e.k == "CompoundAssignOperator" and e.d["op"] == "+=" and e.kids[1].strip(casts=True).k == "BinaryOperator"
+                       and e.kids[1].strip(casts=True).d["op"] == "*" for e in eff):
+            for e in eff:       # the score of the cell accumulated over the letters of a column
+                self.store(ev, e.kids[0], vadd(ev.ev(e.kids[0]), ev.ev(e.kids[1])), F)
+            return nloop
+        if path is None:
+            raise Unsupported("a DP loop inside a helper that is used as a value")
+        nloop += 1
+        # the straight-line piece before the loop ends here; the piece after it starts from fresh entry values
+        self.snapshot("%s#%d" % (path, nloop - 1), ev)
+        ev.loc.clear()
+        ev.cells.clear()
+        ev.where.clear()
+        sub = self.new_eval(F)
+        sub.F, sub.idx_canon = ev.F, ev.idx_canon
+        p2 = "%s/L%d" % (path, nloop)
+        n2 = self.run([body], sub, p2, 0, F)
+        self.snapshot("%s#%d" % (p2, n2), sub)
+        return nloop
+
+
+def vmax_(a, b):
+    return a | b
+
+
+def kernel_summary(F, sigma, prog=None):
+    """([(piece, {output name: max-plus value})], carried locals, {(piece, name): node}) for one kernel pass under the
+    border assignment sigma ({'startb!=0': bool, 'endb!=len_b': bool})"""
+    sm = Summ(prog or F.prog, F, sigma)
+    top = sm.new_eval(F)
+    n = sm.run([F.body], top, "", 0, F)
+    sm.snapshot("#%d" % n, top)
     # locals that no piece reads at its entry are temporaries of one piece, not part of the carried state
     carried = set()
-    for _, o in segs:
+    for _, o in sm.segs:
         for v in o.values():
-            for alt in v:
-                carried |= {a[:-3] for a, _ in alt if a.endswith("@in")}
-    return segs, carried, where
+            carried |= {a[:-3] for a in _atoms(v) if a.endswith("@in")}
+    return sm.segs, carried, sm.where
+
+
+def _rename_vals(o, m):
+    """apply the renaming m (old local name -> new) to the output names and the entry atoms of one piece"""
+    def rn_atom(a):
+        return m.get(a[:-3], a[:-3]) + "@in" if a.endswith("@in") and a[:-3] in m else a
+    return {m.get(k, k): frozenset(frozenset((rn_atom(a), c) for a, c in alt) for alt in v) for k, v in o.items()}
+
+
+def find_renaming(src, ref, src_names, ref_names):
+    """src / ref: {situation: [(piece, outputs)]}.  A one-to-one map of src's private local names onto ref's under which
+    every piece of src equals the piece of ref (cells and ref's carried locals compared); {} if the names already agree;
+    None if there is none"""
+    import itertools
+    src_names = {n for n in src_names if not n.startswith("s[")}
+    ref_names = {n for n in ref_names if not n.startswith("s[")}
+    if src_names <= ref_names:
+        return {}
+    old, new = sorted(src_names - ref_names), sorted(ref_names - src_names)
+    if len(old) != len(new) or len(old) > 7:
+        return None
+    keep = lambda o: {k: v for k, v in o.items() if k.startswith("s[") or k in ref_names}
+    for perm in itertools.permutations(new):
+        m = dict(zip(old, perm))
+        if all([(p, keep(_rename_vals(o, m))) for p, o in src[key]] == [(p, keep(o)) for p, o in ref[key]] for key in src):
+            return m
+    return None
+
+
+def _rename_carried(kinds, sums, wheres, per_kernel, suf):
+    """carried temporaries are private names: if a kernel calls them differently from its siblings (pa/pga/pgb vs
+    diag_a/diag_ga/diag_gb), look for the one-to-one renaming under which all its pieces equal the reference kernel's;
+    none found => the pass is organised differently => no verdict"""
+    import itertools
+    for kk in kinds:
+        per_kernel[kk] = {n for n in per_kernel[kk] if not n.startswith("s[")}
+    sets = [frozenset(per_kernel[kk]) for kk in kinds]
+    ref_set = max(sets, key=lambda x: sets.count(x))
+    ref = next(kk for kk in kinds if frozenset(per_kernel[kk]) == ref_set)
+    for kk in kinds:
+        mine = set(per_kernel[kk])
+        if mine == set(ref_set) or mine <= set(ref_set):
+            continue
+        old, new = sorted(mine - set(ref_set)), sorted(set(ref_set) - mine)
+        if len(old) != len(new) or len(old) > 7:
+            raise AnalysisBroken("R07e: %s carries %s between iterations, its siblings %s: the pass is organised differently; not compared"
+                                 % (kk + suf, sorted(mine), sorted(ref_set)))
+        keys = [k for k in sums if k[0] == kk]
+        found = None
+        for perm in itertools.permutations(new):
+            m = dict(zip(old, perm))
+            ok = True
+            for (_, vals) in keys:
+                a = [(p, {k: v for k, v in _rename_vals(o, m).items() if k.startswith("s[") or k in ref_set}) for p, o in sums[(kk, vals)]]
+                b = [(p, {k: v for k, v in o.items() if k.startswith("s[") or k in ref_set}) for p, o in sums[(ref, vals)]]
+                if a != b:
+                    ok = False
+                    break
+            if ok:
+                found = m
+                break
+        if found is None:
+            raise AnalysisBroken("R07e: %s names its carried temporaries %s (siblings: %s) and no one-to-one renaming makes its pieces equal "
+                                 "to theirs: organised differently or different - not decided" % (kk + suf, old, new))
+        for (_, vals) in keys:
+            sums[(kk, vals)] = [(p, _rename_vals(o, found)) for p, o in sums[(kk, vals)]]
+            wheres[(kk, vals)] = {(p, found.get(n, n)): node for (p, n), node in wheres[(kk, vals)].items()}
+        per_kernel[kk] = {found.get(n, n) for n in mine}
 
 
 def r07e(ck, prog, kinds=None, sufs=("foward", "backward")):
@@ -587,17 +796,19 @@ def r07e(ck, prog, kinds=None, sufs=("foward", "backward")):
     for suf in sufs:
         sums = {}
         wheres = {}
-        carried = set()
+        per_kernel = {}
         for kk in KINDS_:
             F = prog.fn(kk + suf)
             for vals in itertools.product((True, False), repeat=2):
                 sigma = dict(zip(preds, vals))
                 try:
-                    sums[(kk, vals)], c, wh = kernel_summary(F, sigma)
-                    carried |= c
+                    sums[(kk, vals)], c, wh = kernel_summary(F, sigma, prog)
+                    per_kernel.setdefault(kk, set()).update(c)
                     wheres[(kk, vals)] = wh
                 except Unsupported as e:
                     raise AnalysisBroken("R07e: %s is not in the max-plus fragment (%s); the recurrences are not compared" % (kk + suf, e))
+        _rename_carried(KINDS_, sums, wheres, per_kernel, suf)
+        carried = set().union(*per_kernel.values())
         for vals in itertools.product((True, False), repeat=2):
             rows = {kk: [(p, {k: v for k, v in o.items() if k.startswith("s[") or k in carried}) for p, o in sums[(kk, vals)]] for kk in KINDS_}
             shapes = {kk: [(p, tuple(sorted(o))) for p, o in rows[kk]] for kk in KINDS_}
@@ -649,13 +860,22 @@ def r07g(ck, prog):
         Ff, Fb = prog.fn(kk + "foward"), prog.fn(kk + "backward")
         for x, y in itertools.product((True, False), repeat=2):
             try:
-                f, cf, _ = kernel_summary(Ff, {"startb!=0": x, "endb!=len_b": y})
-                b, cb, wb = kernel_summary(Fb, {"startb!=0": y, "endb!=len_b": x})
+                f, cf, _ = kernel_summary(Ff, {"startb!=0": x, "endb!=len_b": y}, prog)
+                b, cb, wb = kernel_summary(Fb, {"startb!=0": y, "endb!=len_b": x}, prog)
             except Unsupported as e:
                 raise AnalysisBroken("R07g: %s passes are not in the max-plus fragment (%s)" % (kk, e))
+            fmir = [(p, {_mirror_name(k): _mirror_val(v) for k, v in o.items()}) for p, o in f]
+            cf = {_mirror_name(n_) for n_ in cf}
+            m = find_renaming({0: fmir}, {0: b}, cf, cb)
+            if m is None:
+                raise AnalysisBroken("R07g: %sfoward and %sbackward name their carried temporaries differently (%s / %s) and no one-to-one "
+                                     "renaming makes them mirror images: organised differently or different - not decided" % (kk, kk, sorted(cf), sorted(cb)))
+            if m:
+                fmir = [(p, _rename_vals(o, m)) for p, o in fmir]
+                cf = {m.get(n_, n_) for n_ in cf}
             carried = cf | cb
             keep = lambda o: {k: v for k, v in o.items() if k.startswith("s[") or k in carried}
-            fm = [(p, {_mirror_name(k): _mirror_val(v) for k, v in keep(o).items()}) for p, o in f]
+            fm = [(p, keep(o)) for p, o in fmir]
             bb = [(p, keep(o)) for p, o in b]
             if [(p, sorted(o)) for p, o in fm] != [(p, sorted(o)) for p, o in bb]:
                 raise AnalysisBroken("R07g: %sfoward and %sbackward are not organised as mirror images (different loops or cells); not compared" % (kk, kk))
@@ -702,12 +922,24 @@ def meetup_candidates(F, sigma):
             return Eval.ev(self, n)
 
     ev = MEval(F, lambda b: False, lambda i: "i")
+    ev.cond_resolver = lambda c: (lambda r: None if r is None or r[0] not in sigma else sigma[r[0]] == r[1])(_border_pred(F, c))
     out = []
 
     def walk(stmts, piece):
         for st in stmts:
             if st.k == "CompoundStmt":
                 walk(st.kids, piece)
+            elif st.k == "DoStmt" and st.child("cond") is not None and st.child("cond").strip(casts=True).cv == 0:
+                walk([st.child("body")], piece)                # do { ... } while(0): a macro body
+            elif st.k == "DeclStmt":
+                for kid in st.kids:
+                    if kid.role == "declinit" and kid.decl.get("ty") in FLOATS and not ev.penalty_class_of_def(kid):
+                        try:
+                            v = ev.ev(kid)
+                        except Unsupported:
+                            continue
+                        if _atoms(v) <= PURE:                   # a price chosen once, e.g. (endb == len_b) ? tgpe : gpe
+                            ev.consts[kid.decl["did"]] = v
             elif st.k in ("ForStmt", "WhileStmt", "DoStmt"):
                 walk([st.child("body")], "loop")
             elif st.k == "IfStmt":
@@ -800,7 +1032,7 @@ def run(ck, progs):
     ck.rule("R07e", "the three forward kernels implement one recurrence and the three backward kernels one: every straight-line piece leaves the same max-plus normal form in every DP cell and carried local (penalties mapped to open/extension/terminal classes, scores to S)")
     ck.rule("R07f", "the three meetup functions price each transition alike under every border situation, and store the value they compared")
     ck.rule("R07g", "in each kernel the backward pass is the mirror image (left<->right) of the forward pass, piece by piece, in max-plus normal form")
-    ck.rule("R07d", "the three forward kernels test the sub-rectangle borders (startb / endb != len_b) in the same order, and so do the three backward kernels")
+    ck.rule("R07d", "border tests have the right polarity: the branch taken when the border lies inside the sequence uses the interior gap penalties, the other the terminal one")
     ck.rule("R07c", "group weighting: each profile's gap penalties are scaled by the size of the other group, for both sides, on the branch where that side is a profile")
     from . import c02
     for cfg, prog in progs.items():
